@@ -118,7 +118,7 @@ class HTTPProtocol(BaseGopherProtocol):
             url = urllib.parse.quote(entry.getselector(), errors="surrogateescape")
         else:
             # Link to a different server.  Make it a gopher URL.
-            url = entry.geturl(self.server.server_name, 70)
+            url = entry.geturl(self.server.server_name, self.server.server_port)
 
         # OK.  Render.
         return self.getrenderstr(entry, url)
